@@ -65,4 +65,13 @@ PROPS = {
         ],
         "timeout": 1500,
     },
+    "C14": {
+        "lean_modules": ["JrpcProofs.Props.C14", "JrpcProofs.Facts.Locks"],
+        "race": True,
+        "assumptions": [
+            "gorilla/websocket writes a message as one or more frames of one message (reassembled by the proxy) and detects overlapping writers by panicking",
+            "the race clause is supported by the Go race detector on the scenario runs (a dynamic tool) plus the regenerated table of connection uses; it is not a memory-model proof",
+        ],
+        "timeout": 1500,
+    },
 }
